@@ -136,6 +136,33 @@ func (e *Engine) registerIntrinsics() {
 			}
 			return res
 		}
+		e.intr[pp+".ndWriteMark"] = func(e *Engine, c *CallCtx) []Outcome {
+			// everything allocated so far is "pre-existing"; writes to it are logged from now on
+			c.St.epoch++
+			return one(c.St, I64(int64(len(c.St.writes))))
+		}
+		e.intr[pp+".ndWritesSince"] = func(e *Engine, c *CallCtx) []Outcome {
+			m, ok := c.St.Conc(c.Args[0].(*Term))
+			if !ok {
+				unsupported("ndWritesSince mark must be concrete")
+			}
+			n := 0
+			var sites []string
+			for _, w := range c.St.writes[int(m.Int()):] {
+				if strings.Contains(w.Site, "@zz_verif") {
+					continue // harness / stub bookkeeping
+				}
+				n++
+				sites = append(sites, w.Site)
+			}
+			if n > 0 {
+				if e.extra == nil {
+					e.extra = map[string]interface{}{}
+				}
+				e.extra["shared_writes"] = sites
+			}
+			return one(c.St, I64(int64(n)))
+		}
 		e.intr[pp+".ndPrefer"] = func(e *Engine, c *CallCtx) []Outcome {
 			// a soft preference for counterexample models (never affects a verdict)
 			t := c.Args[0].(*Term)
